@@ -235,6 +235,12 @@ func c13Eval(t *fw.T, c *fw.Case) {
 	vs = append(vs, variant{"empty-parameter-first-segment-with-path", base + "GET /{}/zzusers/{zid}\n  Path\n    {\n      \"zid\": 1\n    }\n  200 any\n"})
 	vs = append(vs, variant{"empty-parameter-last-segment-trailing-slash", base + "GET /zzt/{}/\n  200 any\n"})
 	vs = append(vs, variant{"repeated-parameter", base + "GET /zz/{q}/x/{q}\n  200 any\n"})
+	// a repeated {name} that is not the path's first parameter, with and without declarations (seeded change C13-S)
+	vs = append(vs, variant{"repeated-parameter:second-and-third", base + "GET /zzr/{p}/x/{q}/y/{q}\n  200 any\n"})
+	vs = append(vs, variant{"repeated-parameter:last-two-adjacent", base + "GET /zzs/{p}/{r}/{q}/{q}\n  200 any\n"})
+	vs = append(vs, variant{"repeated-parameter:second-and-third-declared", base + "GET /zzt9/{p}/x/{q}/y/{q}\n  Path\n    {\n      \"p\": 1,\n      \"q\": 2\n    }\n  200 any\n"})
+	vs = append(vs, variant{"repeated-parameter:second-and-third-url", base + "URL /zzu/{p}/x/{q}/y/{q}\n  GET\n    200 any\n"})
+	vs = append(vs, variant{"repeated-parameter:first-and-last-of-three", base + "GET /zzv/{q}/x/{p}/y/{q}\n  200 any\n"})
 	vs = append(vs, variant{"path-body-not-object", base + "GET /zy/{q}\n  Path\n    [1]\n  200 any\n"})
 	vs = append(vs, variant{"path-body-scalar", base + "GET /zy/{q}\n  Path\n    5\n  200 any\n"})
 	vs = append(vs, variant{"nested-object-property", base + "GET /zx/{q}\n  Path\n    {\n      \"q\": {\"a\": 1}\n    }\n  200 any\n"})
